@@ -37,6 +37,9 @@ type GMatch struct {
 	Contains bool
 	// ForceDouble: spell the literal in double quotes even if it is JSON-pointer shaped
 	ForceDouble bool
+	// ValSel: write the literal as a selector in the expression syntax (the grammar reads an unquoted literal through
+	// its Selector rule and takes the printed selector as the literal's text); Raw is then strings.Join(ValSel, ".")
+	ValSel []string
 }
 
 type GColl struct {
@@ -196,6 +199,11 @@ func (g *Gen) renderSelector(parts []string, style int) (text, wire string, ok b
 func (g *Gen) renderValueM(m GMatch) (text string, bareNumber bool) {
 	if m.ForceDouble {
 		return quoteDouble(m.Raw), false
+	}
+	if m.ValSel != nil {
+		if text, _, ok := g.renderSelector(m.ValSel, 1); ok {
+			return text, false
+		}
 	}
 	return g.renderValue(m.Raw, m.LitStyle)
 }
